@@ -7,7 +7,7 @@ ALPHA = [0, 1, 2, 3, 63, 64, 0x80, 0xBF, 0xC0, 0xC1, 0xFF, ord('a')]
 RULE = ("bounded-exhaustive: every buffer of length <= L (L=4 quick, 5 thorough) over the alphabet "
         "{0,1,2,3,63,64,0x80,0xBF,0xC0,0xC1,0xFF,'a'} at every start offset; plus seeded structured buffers: label runs at the "
         "63-byte and 254/255-byte limits, pointer chains, pointers to self / forward / past the end / into the middle of labels, "
-        "names ending exactly at the end of the buffer, names of 125..128 labels and 253..256 bytes continued through a pointer after any "
+        "names ending exactly at the end of the buffer, every value of the length octet with that many / one fewer / more bytes behind it, names of 125..128 labels and 253..256 bytes continued through a pointer after any "
         "number of labels. non-trivial = the name decodes; distinct = distinct outputs")
 CASE_TIMEOUT = 600
 STACK_KB = 256   # name decoding needs a constant amount of stack (see pC01)
@@ -84,6 +84,17 @@ def cases(rng, tier):
             buf += b"\x01" + bytes([97 + i % 26]) + bytes([0xC0 | (last >> 8), last & 0xFF])
             last = here
         out.append("NAME %s %x" % (bytes(buf).hex(), last))
+    # every value of the length octet, with exactly that many bytes behind it, one fewer, and plenty; in place and reached
+    # through a pointer: the two high bits decide (00 label, 11 pointer, 01 and 10 reserved) whatever follows
+    for L in range(256):
+        for avail in (L, L - 1, L + 40):
+            if avail < 0:
+                continue
+            body = bytes([L]) + bytes([97 + (i % 26) for i in range(avail)])
+            buf = b"\x00\x00" + body + b"\x00"
+            out.append("NAME %s 2" % buf.hex())
+            here = len(buf)
+            out.append("NAME %s %x" % ((buf + b"\x01p\xc0\x02").hex(), here))
     # names at the limits (127 labels / 255 bytes, and one past them) whose tail, down to the bare root byte, is reached through
     # a pointer placed after any number of their labels
     shapes = [[1] * n for n in (125, 126, 127, 128)] + [[63, 63, 63, k] for k in (59, 60, 61, 62)] + [[63, 63, 63, 30, 30], [2] * 84 + [1], [2] * 85]
